@@ -35,8 +35,8 @@ ASSUMPTIONS = ["failed realizations are passed to filters as all-NaN rows (what 
                "a percentile within 1e-12 of k/n may give k or ceil(p*n) non-zero weights; negative weights are never accepted"]
 EXHAUSTIVE = {"quick": False, "thorough": False}
 BOUNDS = {"quick": {"exhaustive_n": 5, "sampled_n_max": 30}, "thorough": {"exhaustive_n": 7, "sampled_n_max": 60}}
-REQUIRED = {"quick": {"cvar.calls": 20000, "cvar.e2e": 200, "cvar.with_zero_configured_weight": 700, "cvar.e2e_after_another_constraint_filter": 60, "cvar.e2e_later_evaluation_of_same_evaluator": 200, "cvar.no_success": 10, "__nontrivial__": 100},
-            "thorough": {"cvar.calls": 1000000, "cvar.e2e": 2000, "cvar.with_zero_configured_weight": 7000, "cvar.e2e_after_another_constraint_filter": 600, "cvar.e2e_later_evaluation_of_same_evaluator": 2000, "cvar.no_success": 50, "__nontrivial__": 1000}}
+REQUIRED = {"quick": {"cvar.calls": 20000, "cvar.e2e": 200, "cvar.with_zero_configured_weight": 700, "cvar.e2e_with_unreferenced_filters_in_front": 100, "cvar.e2e_after_another_constraint_filter": 60, "cvar.e2e_later_evaluation_of_same_evaluator": 200, "cvar.no_success": 10, "__nontrivial__": 100},
+            "thorough": {"cvar.calls": 1000000, "cvar.e2e": 2000, "cvar.with_zero_configured_weight": 7000, "cvar.e2e_with_unreferenced_filters_in_front": 1000, "cvar.e2e_after_another_constraint_filter": 600, "cvar.e2e_later_evaluation_of_same_evaluator": 2000, "cvar.no_success": 50, "__nontrivial__": 1000}}
 
 FLAVOURS = [("objective", None), ("constraint", "upper"), ("constraint", "lower"), ("constraint", "eq"),
             ("constraint", "two"), ("objective2", None), ("objective_neg", None)]
@@ -86,7 +86,7 @@ def cases(tier: str, seed: int):
         yield {"mode": "e2e", "i": i}
 
 
-def _config(n, flavour, kind, percentile, rng, weights=None, first_filter=None):
+def _config(n, flavour, kind, percentile, rng, weights=None, first_filter=None, unused_front=0):
     from ropt.config.enopt import EnOptConfig  # noqa: PLC0415
 
     cfg = {"variables": {"initial_values": [0.0, 0.0]},
@@ -117,6 +117,15 @@ def _config(n, flavour, kind, percentile, rng, weights=None, first_filter=None):
             # another constraint filter, on constraint 0, evaluated before the judged one: both see the same constraint array
             cfg["realization_filters"].insert(0, first_filter)
             cfg["nonlinear_constraints"]["realization_filters"] = [0, 1]
+    if unused_front:
+        # filters that no objective or constraint refers to sit in front of the judged one: indices in the maps are positions
+        # in the configured tuple
+        front = [{"method": "sort-objective", "options": {"sort": [0], "first": 0, "last": 0}},
+                 {"method": "cvar-objective", "options": {"sort": [0], "percentile": 0.5}}][:unused_front]
+        cfg["realization_filters"] = front + cfg["realization_filters"]
+        for sec in ("objectives", "nonlinear_constraints"):
+            if sec in cfg and cfg[sec].get("realization_filters") is not None:
+                cfg[sec]["realization_filters"] = [(-1 if k < 0 else k + unused_front) for k in cfg[sec]["realization_filters"]]
     return EnOptConfig.model_validate(cfg), meta
 
 
@@ -274,7 +283,10 @@ def _e2e(case, obs):
     cw = ens.gen_weights(rng, n) if n > 1 and rng.random() < 0.5 else None
     if cw is not None and 0.0 in cw:
         obs.count("cvar.e2e_with_zero_configured_weight")
-    cfg, meta = _config(n, fl, kind, p, rng, weights=cw, first_filter=first)
+    unused = int(rng.choice([0, 0, 1, 2]))
+    if unused:
+        obs.count("cvar.e2e_with_unreferenced_filters_in_front")
+    cfg, meta = _config(n, fl, kind, p, rng, weights=cw, first_filter=first, unused_front=unused)
     st = {}
 
     def draw():
@@ -315,6 +327,9 @@ def _e2e(case, obs):
         isobj = fl in ("objective", "objective_neg")
         got = float(res.functions.objectives[{"objective": 0, "objective_neg": 1}[fl]] if isobj else res.functions.constraints[1])
         rows = res.realizations.objective_weights if isobj else res.realizations.constraint_weights
+        if rows is None:
+            obs.violation("e2e_no_filter_weights_reported", flavour=fl, kind=kind, percentile=p, filters=[f.method for f in cfg.realization_filters])
+            return
         row = rows[0] if fl == "objective" else rows[1]
         if first is not None and first["method"].startswith("cvar"):
             for k, d in models.check_cvar_weights(rows[0], other * 3, failed, first["options"]["percentile"]):
